@@ -206,6 +206,9 @@ pub struct SessionSpec {
     /// directories (so this process' cached shard manager never hears of it) and afterwards the xorbs, the store
     /// shards and the cache shards it produced are placed into the shared directories, as another process would
     pub foreign: bool,
+    /// with `foreign`: the other client works with a shard cache of its own - its xorbs and shards reach the store,
+    /// nothing reaches this client's shard cache (the store then holds xorbs this client's cache does not know)
+    pub foreign_no_cache: bool,
 }
 impl SessionSpec {
     pub fn seq(files: Vec<FileSpec>) -> SessionSpec {
@@ -214,10 +217,11 @@ impl SessionSpec {
             order: vec![],
             salt: 0,
             foreign: false,
+            foreign_no_cache: false,
         }
     }
     pub fn to_json(&self) -> Value {
-        json!({"files": self.files.iter().map(|f| f.to_json()).collect::<Vec<_>>(), "order": self.order, "salt": self.salt, "foreign": self.foreign})
+        json!({"files": self.files.iter().map(|f| f.to_json()).collect::<Vec<_>>(), "order": self.order, "salt": self.salt, "foreign": self.foreign, "foreign_no_cache": self.foreign_no_cache})
     }
     pub fn from_json(v: &Value) -> SessionSpec {
         SessionSpec {
@@ -225,11 +229,12 @@ impl SessionSpec {
             order: v["order"].as_array().map(|a| a.iter().map(|x| x.as_u64().unwrap_or(0) as usize).collect()).unwrap_or_default(),
             salt: v["salt"].as_u64().unwrap_or(0) as u8,
             foreign: v["foreign"].as_bool().unwrap_or(false),
+            foreign_no_cache: v["foreign_no_cache"].as_bool().unwrap_or(false),
         }
     }
     pub fn label(&self) -> String {
         let f: Vec<String> = self.files.iter().map(|f| f.label()).collect();
-        format!("[{}]", f.join(","))
+        format!("[{}]{}", f.join(","), if self.foreign_no_cache { "@other-client-own-cache" } else if self.foreign { "@other-client" } else { "" })
     }
 }
 
@@ -507,8 +512,13 @@ impl Lab {
             let other = cas.join("other-client");
             let mut plain = spec.clone();
             plain.foreign = false;
+            plain.foreign_no_cache = false;
             let mut obs = self.run_session(&other, &plain);
-            for (from, to) in [(store_xorb_dir(&other), store_xorb_dir(cas)), (store_shard_dir(&other), store_shard_dir(cas)), (shard_cache_dir(&other), shard_cache_dir(cas))] {
+            let mut moves = vec![(store_xorb_dir(&other), store_xorb_dir(cas)), (store_shard_dir(&other), store_shard_dir(cas))];
+            if !spec.foreign_no_cache {
+                moves.push((shard_cache_dir(&other), shard_cache_dir(cas)));
+            }
+            for (from, to) in moves {
                 let _ = std::fs::create_dir_all(&to);
                 for n in list_names(&from) {
                     let (a, b) = (from.join(&n), to.join(&n));
